@@ -220,6 +220,9 @@ def check_C01(chk):
     chk.borrow(_geno, "C01.f", 5)
     chk.borrow(lambda: RG_.c09d(chk), "C01.g", 5)
     chk.borrow(lambda: (c11a(chk), c11b(chk)), "C01.h", 4)
+    # .. and that what read_site classifies is what the record holds: the genotype readers hand on every decoded column, for both formats
+    import rules_io as RIO1_
+    chk.borrow(lambda: (RIO1_.reader_outcomes(chk, "C10.e"), RG_.c08d(chk)), "C01.i", 8)
     chk.floor("C01.a", 3)
     chk.floor("C01.b", 4)
     chk.floor("C01.c", 3)
@@ -737,6 +740,13 @@ def check_C02(chk):
             RG_.c08b(chk, g_)
             RG_.c08c(chk, g_)
     chk.borrow(_geno, "C02.h", 4)
+    # `among the selected samples`: selection isolation and the Error arm (C01.a, C08.f); `printed to --precision decimals`: the precision
+    # reaches the formatter unmodified (C01.d, C07.c, C07.f, C17.f)
+    import rules_io as RIO2_
+    import rules_panic as RP2_
+    if rs.ok:
+        chk.borrow(lambda: (c01a(chk, rs), RG_.c08f(chk)), "C02.i", 6)
+    chk.borrow(lambda: (c01d(chk), RIO2_.c07c(chk), RIO2_.c07f(chk), RP2_.precision_bound(chk, "C17.f")), "C02.j", 8)
     for r, n in (("C02.a", 10), ("C02.b", 10), ("C02.c", 3), ("C02.d", 2), ("C02.e", 1), ("C02.f", 1), ("C02.g", 7)):
         chk.floor(r, n)
 
@@ -1743,6 +1753,24 @@ def check_C10(chk):
     if rs_.ok:
         sample_loop_exits(chk, rs_, "C10.f")
     chk.borrow(lambda: c02g(chk), "C10.g", 7)
+    # .. a record goes to `skipped` under projection only when it is not projectable and is counted otherwise (C02.a/e), what counts as a
+    # complete site without projection (C01.b/c), the output of a strict run is printed like the lenient one (C01.d), and a genotype is
+    # unusable only for the reasons C08 names (C08.a-e)
+    import rules_geno as RG10_
+    def _more():
+        if rs_.ok:
+            c02a(chk, rs_)
+            c01b(chk, rs_)
+        c02e(chk)
+        c01c(chk)
+        c01d(chk)
+        g_ = RG10_.GenoFrom(chk)
+        if g_.ok:
+            RG10_.c08a(chk, g_)
+            RG10_.c08b(chk, g_)
+            RG10_.c08c(chk, g_)
+            RG10_.c08e(chk, g_)
+    chk.borrow(_more, "C10.h", 20)
     for r, n in (("C10.a", 10), ("C10.b", 7), ("C10.c", 2), ("C10.d", 5), ("C10.e", 6)):
         chk.floor(r, n)
 
@@ -2172,6 +2200,8 @@ def check_C11(chk):
     import rules_io as RIO_
     # the record buffer is reused between reads: a failed read must not be taken for a record (its genotypes would be the previous record's)
     chk.borrow(lambda: RIO_.reader_outcomes(chk, "C10.e"), "C11.f", 2)
+    # additivity: each record's contribution is added exactly once, directly to the output spectrum (no side accumulator): C01.c, C10.a
+    chk.borrow(lambda: (c01c(chk), c10a(chk)), "C11.g", 12)
     for r, n in (("C11.a", 2), ("C11.b", 4), ("C11.c", 3), ("C11.d", 4), ("C11.e", 1), ("C11.f", 2)):
         chk.floor(r, n)
 
